@@ -6,6 +6,8 @@ from ..core import hx
 
 ALLT = ("dir", "file", "symlink", "fifo", "chr", "blk", "hardlink")
 SECRET_SHA = hashlib.sha256(b"SECRET-OUTSIDE-SOURCE-ROOT").hexdigest()[:32]
+# content of every sentinel file outside the roots: none of it may ever show up in the destination
+OUTSIDE_SHAS = {hashlib.sha256(b).hexdigest()[:32] for b in (b"SECRET-OUTSIDE-SOURCE-ROOT", b"sentinel", b"sentinel2")}
 
 
 def canon(after):
@@ -72,7 +74,7 @@ class CopySuite(Suite):
         if impl.get("src_changed"):
             ok = False
             notes.append("the source tree was modified")
-        if any(e.get("sha") == SECRET_SHA for e in r["after"]):
+        if any(e.get("sha") in OUTSIDE_SHAS for e in r["after"]):
             ok = False
             notes.append("C14: bytes from outside the source root were copied")
         if model.get("res") == "ok":
@@ -372,6 +374,10 @@ class CopyEscape(CopySuite):
                 dst = plant(dst)
                 tree = plant(tree)
             spaths = [b"/"] + [b"/" + bytes.fromhex(e["p"]) for e in tree]
+            # paths THROUGH a symlink of the source tree (names that exist behind the sentinels)
+            for e in tree:
+                if e["t"] == "symlink":
+                    spaths += [b"/" + bytes.fromhex(e["p"]) + suf for suf in (b"/f", b"/d/g", b"/secret", b"/d", b"/outside/f", b"/srcout/secret")]
             dpaths = [b"/", b"/out", b"/lnk/x", b"/lnk", b"/a/x", b"/x/../../outside/z"] + [b"/" + bytes.fromhex(e["p"]) for e in dst] + \
                      [b"/" + bytes.fromhex(e["p"]) + b"/sub" for e in dst if e["t"] == "symlink"]
             a = {"src": hx(rng.choice(spaths)), "dst": hx(rng.choice(dpaths))}
@@ -406,7 +412,7 @@ class CopyEscape(CopySuite):
         if impl.get("src_changed"):
             ok = False
             notes.append("C14: the source tree was modified")
-        if any(e.get("sha") == SECRET_SHA for e in r["after"]):
+        if any(e.get("sha") in OUTSIDE_SHAS for e in r["after"]):
             ok = False
             notes.append("C14: bytes from outside the source root were copied")
         return Verdict(ok, ok, "; ".join(notes))
